@@ -30,7 +30,7 @@ def class_of(v, depth_site_of_kind):
         return {"module": "module-link", "call-early-return": "early-return", "construct-early-return": "early-return",
                 "probe": "limit-unwind"}.get(s, s)
     if o == "designed":
-        return "early-return" if case["entry"] == "ev_slen_class" else "catch-in-frame"
+        return {"ev_slen_class": "early-return", "ev_slen_eval_edi": "gdi-failure"}.get(case["entry"], "catch-in-frame")
     if o == "no-panic":
         return "panic"
     if o == "differential":
